@@ -580,4 +580,6 @@ MUTATIONS += [
     dict(id="w10-c09g", patch="seeded/C09g/patch.diff", expect={'C09': ['R7d:'], 'C08': ['R7d:']}, allow_others=True),
     dict(id="w10-c17g", patch="seeded/C17g/patch.diff", expect={'C17': ['R4i:']}, allow_others=True),
     dict(id="w10-c18g", patch="seeded/C18g/patch.diff", expect={'C18': ['R6b:'], 'C10': ['R6b:']}, allow_others=True),
+    dict(id="r5i-dirichlet-axis-upper-bound-only", file="cirkit/symbolic/initializers.py", old="        if not 0 <= axis < len(shape):", new="        if axis >= len(shape):", expect={"C17": ["R5i:cirkit.symbolic.initializers.DirichletInitializer.allows_shape"], "C14": ["R5i:"]}),
+    dict(id="q-r5i-two-separate-tests", quiet=True, file="cirkit/symbolic/initializers.py", old="        if not 0 <= axis < len(shape):", new="        if axis < 0 or axis >= len(shape):", expect={}),
 ]
